@@ -107,7 +107,7 @@ func (m *MonC07) OnEnd(w *World) []Violation {
 		}
 		for _, id := range c.Ref.ReqOrder {
 			r := c.Ref.Reqs[id]
-			if r.Dup {
+			if r.Dup || r.Optional {
 				continue
 			}
 			if r.Resp == 0 {
